@@ -7,7 +7,8 @@ VIOLATION and which of those with a failing input. Writes /verif/seeded/RECHECK.
 usage: seed_reeval.py [id-prefix ...]"""
 import json, os, shutil, subprocess, sys, time
 
-SE = "/tmp/se"
+SE = os.environ.get("SEED_REEVAL_DIR", "/tmp/se")  # several instances may run side by side on disjoint seeds, each in its own scratch dir
+TARGET_ONLY = bool(os.environ.get("SEED_REEVAL_TARGET_ONLY"))  # regression mode: only the target property's check
 REPO, VERIF = SE + "/repo", SE + "/verif"
 PROPS = ["C%02d" % i for i in range(1, 21)]
 
@@ -60,7 +61,7 @@ def main():
             continue
         flagged, with_input = [], []
         t0 = time.time()
-        for pid in PROPS:
+        for pid in ([target] if TARGET_ONLY else PROPS):
             rc, o = sh("./check %s --tier quick" % pid, cwd=VERIF, env={"VERIF_REPO_OVERRIDE": REPO, "VERIF_SWEEP_NO_LEAN": "1", "HARNESS_HANG_SECS": "60"})
             if rc != 0:
                 flagged.append(pid)
@@ -68,9 +69,17 @@ def main():
                 if v and "no-failing-input-found" not in v[0]:
                     with_input.append(pid)
         shutil.rmtree(VERIF + "/.cache/runs", ignore_errors=True)
+        if TARGET_ONLY and sid in res and "flagged" in res[sid]:
+            # keep the earlier full row, refresh the target's verdict
+            prev = res[sid]
+            flagged = sorted(set([p for p in prev["flagged"] if p != target] + flagged))
+            with_input = sorted(set([p for p in prev["with_input"] if p != target] + with_input))
         res[sid] = {"target": target, "flagged": flagged, "with_input": with_input, "target_flagged": target in flagged,
-                    "target_with_input": target in with_input, "wall": round(time.time() - t0, 1)}
+                    "target_with_input": target in with_input, "wall": round(time.time() - t0, 1), "target_only_refresh": TARGET_ONLY}
         print(sid, "target", target, "flagged" if target in flagged else "MISSED", "input" if target in with_input else "-", flagged, flush=True)
+        cur = json.load(open(out_path)) if os.path.exists(out_path) else {}
+        cur[sid] = res[sid]
+        res = cur
         json.dump(res, open(out_path, "w"), indent=1)
     sh("git checkout -- . && git clean -fdq", cwd=REPO)
     rows = ["| seed | target | checks raising VIOLATION (bold = with failing input) |", "|---|---|---|"]
